@@ -5,6 +5,8 @@
 set -u
 export GOFLAGS=-mod=mod GOPROXY=off
 S="$1"; BASE="$2"; OUT="$3"
+# the demos use the helper kit at /tmp/seedkit
+rm -rf /tmp/seedkit; cp -r "$(cd "$(dirname "$0")/.." && pwd)/seeded/_kit" /tmp/seedkit
 name=$(basename "$S")
 WT=$(mktemp -d /dev/shm/wt_seed.XXXXXX); rmdir "$WT"
 git -C /repo worktree add -q --detach "$WT" HEAD || exit 2
